@@ -13,9 +13,17 @@ class S(K.ConnSpec):
 SPEC = S()
 
 
+from .. import stages as G
+
+STAGES = [
+    G.conn_stage("C08", 6, 6, 1200, 30000, 'Ownership stage of C08: an identifier the library took with an accepted send is never leaked — the monitor mon_c06 requires that an accepted QoS>0 PUBLISH or PUBREL is requested for sending at once or kept in the store (an accepted packet that is neither is an exchange that can never complete: its identifier stays in use for ever), and that stored packets leave the store, and their identifiers their sets, only for a reason.', 'store'),
+    G.AllocStage("C08"),
+]
+
+
 def run(tier, seed, t0):
-    return D.run(SPEC, tier, seed, t0)
+    return G.run_with_stages("C08", SPEC, STAGES, tier, seed, t0)
 
 
 def replay(path):
-    return D.do_replay(SPEC, path)
+    return G.replay(path, SPEC, STAGES)
